@@ -5,6 +5,8 @@
 (*   reset   {rcap}                                                        *)
 (*   step    {a, r, sig, len, st}   sig = len(WaitCh()), len = Len(),      *)
 (*                                  st[p] = "idle" | "gate"                *)
+(*   step    {a: race, rs, ...}     a.acts issued together by distinct     *)
+(*                                  goroutines, rs their replies           *)
 (*   pstress {left, sig, ...}       quiescent end of a free-running run:   *)
 (*                                  all consumers asleep on the channel    *)
 (* WakeInv is checked by TLC on every state the real queue went through.   *)
@@ -12,12 +14,14 @@ EXTENDS PriWake, Json, IOUtils
 
 TraceLog == ndJsonDeserialize(IOEnv.VERIF_TRACE)
 
-VARIABLES l
-tvars == <<allwvars, l>>
+VARIABLES l,
+          pend,    \* race step: indices of the calls whose first half has not happened yet
+          racing   \* race step: the procs of the step (they run without gates)
+tvars == <<allwvars, l, pend, racing>>
 
 Status(s) == IF s = "idle" THEN "idle" ELSE "gate"
 
-TraceInit == l = 1 /\ InitWith(0)
+TraceInit == l = 1 /\ pend = {} /\ racing = {} /\ InitWith(0)
 
 TReset(e) ==
   /\ wcap' = e.rcap /\ n' = 0 /\ sig' = 0
@@ -36,13 +40,50 @@ TStress(e) ==
   /\ e.got + e.left = e.accepted
   /\ UNCHANGED allwvars
 
+(* A race step: the calls e.a.acts (pushx / popx / len / recv by distinct procs) are issued by  *)
+(* goroutines released together, gates open.  A Push or Pop is two halves (mutex hold, then    *)
+(* signal); what happened is SOME interleaving of the halves: TLC searches it.                 *)
+Half(x) == CASE x.op = "pushx" -> [op |-> "push", p |-> x.p]
+             [] x.op = "popx"  -> [op |-> "pop", p |-> x.p]
+             [] OTHER          -> x
+(* the reply of the whole call, given the reply of its first half *)
+Whole(x, fr) == CASE x.op = "pushx" -> IF fr.st = "full" THEN fr ELSE R("ok", 0)
+                  [] x.op = "popx"  -> IF fr.st = "empty" THEN fr ELSE R("item", 0)
+                  [] OTHER          -> fr
+Idx(e) == 1..Len(e.a.acts)
+
+TRaceBegin(e) ==
+  /\ pend = {} /\ racing = {}
+  /\ pend' = Idx(e) /\ racing' = {e.a.acts[i].p : i \in Idx(e)}
+  /\ UNCHANGED <<allwvars, l>>
+TRaceHalf(e) ==
+  /\ racing # {}
+  /\ \E i \in pend : \E fr \in Replies(Half(e.a.acts[i])) :
+       /\ e.rs[i] = Whole(e.a.acts[i], fr)
+       /\ Step(Half(e.a.acts[i]), fr)
+       /\ pend' = pend \ {i}
+  /\ UNCHANGED <<l, racing>>
+TRaceSignal ==
+  /\ \E p \in racing : pst[p] # "idle" /\ \E r \in Replies([op |-> "gate", p |-> p]) : Step([op |-> "gate", p |-> p], r)
+  /\ UNCHANGED <<l, pend, racing>>
+TRaceEnd(e) ==
+  /\ racing # {} /\ pend = {} /\ \A p \in racing : pst[p] = "idle"
+  /\ e.sig = sig /\ e.len = n
+  /\ \A p \in Procs : e.st[p] = Status(pst[p])
+  /\ pend' = {} /\ racing' = {} /\ l' = l + 1
+  /\ UNCHANGED allwvars
+
 TraceNext ==
-  /\ l <= Len(TraceLog) /\ l' = l + 1
-  /\ LET e == TraceLog[l] IN
-       CASE e.ev = "reset"   -> TReset(e)
-         [] e.ev = "step"    -> TStep(e)
-         [] e.ev = "pstress" -> TStress(e)
-         [] OTHER -> FALSE
+  \/ /\ l <= Len(TraceLog)
+     /\ LET e == TraceLog[l] IN
+          IF e.ev = "step" /\ e.a.op = "race"
+          THEN TRaceBegin(e) \/ TRaceHalf(e) \/ TRaceEnd(e)
+          ELSE /\ l' = l + 1 /\ UNCHANGED <<pend, racing>>
+               /\ CASE e.ev = "reset"   -> TReset(e)
+                    [] e.ev = "step"    -> TStep(e)
+                    [] e.ev = "pstress" -> TStress(e)
+                    [] OTHER -> FALSE
+  \/ TRaceSignal
 
 TraceSpec == TraceInit /\ [][TraceNext]_tvars
 
